@@ -48,7 +48,7 @@ func UnmarshalTWKBIDList(twkb []byte) ([]int64, bool, error) {
 		return nil, false, p.annotateError(fmt.Errorf("ID list size uvarint malformed: %w", err))
 	}
 
-	if err := p.parseIDList(int(numItems)); err != nil {
+	if err := p.parseIDList(numItems); err != nil {
 		return nil, false, p.annotateError(err)
 	}
 	return p.idList, true, nil
@@ -498,9 +498,13 @@ func (p *twkbParser) nextMultiPoint() (MultiPoint, error) {
 		return MultiPoint{}, fmt.Errorf("num points varint malformed: %w", err)
 	}
 	if p.hasIDs {
-		if err := p.parseIDList(int(numPoints)); err != nil {
+		if err := p.parseIDList(numPoints); err != nil {
 			return MultiPoint{}, err
 		}
+	}
+	// Each point takes at least one byte per dimension.
+	if err := p.checkCount(numPoints, p.dimensions); err != nil {
+		return MultiPoint{}, err
 	}
 	var pts []Point
 	for i := 0; i < int(numPoints); i++ {
@@ -526,9 +530,12 @@ func (p *twkbParser) nextMultiLineString() (MultiLineString, error) {
 		return MultiLineString{}, fmt.Errorf("num linestrings varint malformed: %w", err)
 	}
 	if p.hasIDs {
-		if err := p.parseIDList(int(numLineStrings)); err != nil {
+		if err := p.parseIDList(numLineStrings); err != nil {
 			return MultiLineString{}, err
 		}
+	}
+	if err := p.checkCount(numLineStrings, 1); err != nil {
+		return MultiLineString{}, err
 	}
 	var lines []LineString
 	for i := 0; i < int(numLineStrings); i++ {
@@ -554,9 +561,12 @@ func (p *twkbParser) nextMultiPolygon() (MultiPolygon, error) {
 		return MultiPolygon{}, fmt.Errorf("num polygons varint malformed: %w", err)
 	}
 	if p.hasIDs {
-		if err := p.parseIDList(int(numPolygons)); err != nil {
+		if err := p.parseIDList(numPolygons); err != nil {
 			return MultiPolygon{}, err
 		}
+	}
+	if err := p.checkCount(numPolygons, 1); err != nil {
+		return MultiPolygon{}, err
 	}
 	var polys []Polygon
 	for i := 0; i < int(numPolygons); i++ {
@@ -582,9 +592,13 @@ func (p *twkbParser) nextGeometryCollection() (GeometryCollection, error) {
 		return GeometryCollection{}, fmt.Errorf("num polygons varint malformed: %w", err)
 	}
 	if p.hasIDs {
-		if err := p.parseIDList(int(numGeoms)); err != nil {
+		if err := p.parseIDList(numGeoms); err != nil {
 			return GeometryCollection{}, err
 		}
+	}
+	// Each geometry takes at least two header bytes.
+	if err := p.checkCount(numGeoms, 2); err != nil {
+		return GeometryCollection{}, err
 	}
 	var geoms []Geometry
 	for i := 0; i < int(numGeoms); i++ {
@@ -609,8 +623,24 @@ func (p *twkbParser) parsePointCountAndArray() ([]float64, int, error) {
 		return nil, 0, fmt.Errorf("num points varint malformed: %w", err)
 	}
 
+	// Each point takes at least one byte per dimension.
+	if err := p.checkCount(numPoints, p.dimensions); err != nil {
+		return nil, 0, err
+	}
 	coords, err := p.parsePointArray(int(numPoints))
 	return coords, int(numPoints), err
+}
+
+// checkCount checks an element count read from the (untrusted) input against
+// the number of bytes that are left, given the minimum number of bytes that
+// one element occupies. A count that cannot possibly be satisfied is rejected
+// before anything is allocated or looped over based on it.
+func (p *twkbParser) checkCount(count uint64, minBytesPerElement int) error {
+	remaining := uint64(len(p.twkb) - p.pos)
+	if count > remaining/uint64(minBytesPerElement) {
+		return fmt.Errorf("count of %d exceeds what the remaining input (%d bytes) can hold", count, remaining)
+	}
+	return nil
 }
 
 // Convert a given number of points from integer to floating point coordinates.
@@ -634,7 +664,12 @@ func (p *twkbParser) parsePointArray(numPoints int) ([]float64, error) {
 	return coords, nil
 }
 
-func (p *twkbParser) parseIDList(numIDs int) error {
+func (p *twkbParser) parseIDList(count uint64) error {
+	// Each ID takes at least one byte.
+	if err := p.checkCount(count, 1); err != nil {
+		return fmt.Errorf("ID list: %w", err)
+	}
+	numIDs := int(count)
 	p.idList = make([]int64, numIDs)
 	for i := 0; i < numIDs; i++ {
 		id, err := p.parseSignedVarint()
